@@ -477,7 +477,8 @@ func init() {
 			"message sets of the largest size use TrafficBytes {0,100} and send tick 0 only (bound stated in the rule)",
 		},
 		Run: func(c *lib.Ctx) {
-			debug.SetGCPercent(800) // every case builds and drops a whole network; collect less often
+			debug.SetGCPercent(-1) // every case builds and drops a whole network: collect only when the heap reaches 256 MiB
+			debug.SetMemoryLimit(256 << 20)
 			lib.Cases(c, func(yield func(netCase) bool) { enumNetCases(c.Thorough(), yield) }, func(cs netCase) (string, []lib.Problem) {
 				out, probs := runNetCase(cs)
 				c.Max("max_events_per_case", int64(netLastEvents))
